@@ -12,8 +12,9 @@ META = {
             "int/unsigned/long/short) are generated, compiled against the working tree (plain and ASan/UBSan), and run on the same "
             "(extents, strides, base) cases as the extracted model; every valid index tuple is enumerated and the oracle checks range, "
             "distinctness, stride steps, fill, formula, element identity and copies on the implementation's own output.",
-    "note": "Trusted: Coq kernel, extraction, OCaml driver, generated C++ harness, g++. Accessors other than default_accessor and containers "
-            "other than std::vector/std::array are not modelled. Constructors that do not compile are observed through separately compiled "
+    "note": "Trusted: Coq kernel, extraction, OCaml driver, generated C++ harness, g++. The accessor is an arbitrary function handle->offset->cell in the "
+            "model; the harness runs default_accessor, an interleaved raw-pointer accessor and a non-pointer-handle accessor; containers std::vector, "
+            "std::array, std::deque; elements long and std::string (std::vector<bool> is not supported by mdarray: Std::to_address of its iterator). Constructors that do not compile are observed through separately compiled "
             "probe translation units (NOCOMPILE observation).",
     "design_ref": "DESIGN.md section 4 C14",
 }
@@ -92,6 +93,14 @@ def ctype(t, p):
 PROBE_PATTERNS = [(), (), (), (), ("d",), (3,), ("d", "d"), (3, "d"), (2, 3), ("d", "d", "d"), (2, "d", 3), ("d", 0, "d"), ("d", "d", "d", "d")]
 
 
+ACC_PATTERNS = [(), ("d",), (3,), ("d", "d"), (2, 3), (3, "d"), ("d", 2), ("d", "d", "d"), (2, "d", 3), (2, 3, 2), ("d", 0, "d"), ("d", "d", "d", "d")]
+
+
+def acc_insts():
+    ty = "iuls"
+    return [(ty[n % 4], p) for n, p in enumerate(ACC_PATTERNS)]
+
+
 def probe_insts():
     ty = "iuls"
     return [(ty[n % 4], p) for n, p in enumerate(PROBE_PATTERNS)] + [("i", ("d", "d")), ("l", ("d", "d", "d"))]
@@ -145,6 +154,24 @@ def gen_sources(ctx, nparts, thorough, tag):
         open(src, "w").write("\n".join(L) + "\n")
         srcs.append(src)
     nparts += nx
+    # custom accessors / other containers and element types: one translation unit per layout
+    AI = acc_insts()
+    for j, l in enumerate("LRS"):
+        k = nparts + j
+        L = ['#include "c14_acc.hh"', "namespace c14 {"]
+        if j == 0:
+            L.append("std::vector<long>& cells() { static std::vector<long> g; return g; }")
+        ent = []
+        for n, (t, p) in enumerate(AI):
+            L.append("using AX%d = %s;" % (n, ctype(t, p)))
+            ent.append('    {"acc/%s/%s", &run_acc<%s, AX%d>},' % (l, iname(t, p), LAYC[l], n))
+            if l != "S" and n % 2 == 0:
+                ent.append('    {"elt/%s/%s", &run_elt<%s, AX%d>},' % (l, iname(t, p), LAYC[l], n))
+        L += ["const std::vector<Entry>& tab_%d() {" % k, "  static const std::vector<Entry> t = {"] + ent + ["  };", "  return t;", "}", "}"]
+        src = os.path.join(gd, "tu_%d.cc" % k)
+        open(src, "w").write("\n".join(L) + "\n")
+        srcs.append(src)
+    nparts += 3
     idx = ['#include "c14_impl.hh"', "namespace c14 {"] + ["const std::vector<Entry>& tab_%d();" % k for k in range(nparts)]
     idx += ["int table_parts() { return %d; }" % nparts, "const std::vector<Entry>& table_part(int k) {", "  switch (k) {"]
     idx += ["    case %d: return tab_%d();" % (k, k) for k in range(nparts)] + ["  }", "  return tab_0();", "}", "}"]
@@ -336,6 +363,32 @@ def gen(ctx, I, PI):
             if "d" not in p and n == 0:
                 for l in "LR":
                     cases.append("mdasa %s lay=%s E=%s" % (nm, l, lst(E)))
+    # custom accessor policies (interleaved raw-pointer accessor with a run-time shift; non-pointer data handle), other
+    # containers (std::deque) and element types (std::string)
+    for t, p in acc_insts():
+        nm = iname(t, p)
+        rd = p.count("d")
+        combos = list(itertools.product([1, 2, 3, 5], repeat=rd))
+        combos = rng.sample(combos, min(len(combos), 2 if quick else 6)) + ([tuple([0] * rd)] if rd else [])
+        for n, cmb in enumerate(combos):
+            E = fill(p, cmb)
+            if prod(E) > 200:
+                continue
+            for l in "LRS":
+                for a in ("s2", "cell"):
+                    k1, k2 = (rng.choice([0, 1]), rng.choice([0, 1])) if a == "s2" else (rng.choice([1, 2, 3]), rng.choice([1, 2]))
+                    b1, b2 = rng.choice([0, 1, 4]), rng.choice([0, 3])
+                    if l == "S":
+                        cases.append("acc %s lay=S a=%s E=%s S=%s S2=%s base=%d base2=%d k1=%d k2=%d arr=0" % (
+                            nm, a, lst(E), lst(unique_strides(rng, E, "pad")), lst(unique_strides(rng, E, "perm")), b1, b2, k1, k2))
+                        Sc = strides_right(E) if 0 not in E else strides_right([max(x, 1) for x in E])
+                        if 0 not in E:
+                            cases.append("acc %s lay=S a=%s E=%s S=%s S2=%s base=%d base2=%d k1=%d k2=%d arr=1" % (nm, a, lst(E), lst(Sc), lst(Sc), b2, b1, k2, k1))
+                    else:
+                        cases.append("acc %s lay=%s a=%s E=%s S=- S2=- base=%d base2=%d k1=%d k2=%d arr=1" % (nm, l, a, lst(E), b1, b2, k1, k2))
+            if acc_insts().index((t, p)) % 2 == 0:
+                for l in "LR":
+                    cases.append("elt %s lay=%s E=%s" % (nm, l, lst(E)))
     # extents whose product is just below the limit of index_type (short): every tuple still enumerated (mapping level only:
     # the list-based store of the model is quadratic in the number of writes)
     big = [("s:d", [32767]), ("s:d,d", [181, 181]), ("s:d,d", [1, 32767]), ("s:d,d,d", [127, 129, 2])]
@@ -624,6 +677,56 @@ def oracle(case, impl, model):
         if v != src:
             return "copy", "array elements %s, view elements %s" % (v, src)
         return None
+    if op == "acc":
+        lay, a = cd["lay"], cd["a"]
+        S2 = il(cd.get("S2"))
+        b2, k1, k2 = int(cd.get("base2", "0")), int(cd["k1"]), int(cd["k2"])
+        def cellsof(bb, SS, kk):
+            st = strides_left(E) if lay == "L" else strides_right(E) if lay == "R" else SS
+            return [bb + 2 * dot(i, st) + kk if a == "s2" else bb + kk * dot(i, st) for i in T]
+        P, Q = cellsof(base, S, k1), cellsof(b2, S2, k2)
+        secs = [x.strip() for x in impl.split(" | ")]
+        d0 = kvs(secs[0])
+        if il(d0.get("p")) != P or il(d0.get("q")) != Q:
+            return "element", "custom accessor %s: views access cells %s / %s, accessor(mapping(idx)) designates %s / %s" % (a, d0.get("p"), d0.get("q"), P, Q)
+        if len(set(P)) != len(P):
+            return "element", "cells not distinct"
+        if il(d0.get("v")) != [1000 + x for x in P]:
+            return "value", "values read through the accessor: %s" % d0.get("v")
+        for sct in secs[1:]:
+            tag, _, rest = sct.partition(" ")
+            if rest.strip() == "-":
+                continue
+            if tag in ("ar", "ara"):
+                d = kvs(rest)
+                want = [1000 + x for x in (P if tag == "ar" else Q)]
+                if il(d.get("ext")) != E or d.get("cs") != str(prod(E)) or il(d.get("v")) != want:
+                    return "from-mdspan", "%s: mdarray built from the view (accessor %s) holds %s (container size %s), the view's elements are %s" % (
+                        "mdarray(mdspan)" if tag == "ar" else "mdarray(mdspan, alloc)", a, d.get("v"), d.get("cs"), want)
+            elif tag in ("sw", "as"):
+                x, y = [il(z.strip()) for z in rest.split(" ; ")]
+                wx, wy = (Q, P) if tag == "sw" else (P, Q)
+                if x != wx or y != wy:
+                    return "swap" if tag == "sw" else "assign", "after %s the views access cells %s ; %s, expected %s ; %s" % ("swap" if tag == "sw" else "copy/move assignment", x, y, wx, wy)
+            elif tag == "cv":
+                if il(rest) != P:
+                    return "convert", "const-converted view accesses %s, original %s" % (rest, P)
+        return None
+    if op == "elt":
+        lay = cd["lay"]
+        st = strides_left(E) if lay == "L" else strides_right(E)
+        want = [dot(i, st) for i in T]
+        s1, s2_ = [x.strip() for x in impl.split(" | ")]
+        d1, d2 = kvs(s1), kvs(s2_)
+        exp = [77] * prod(E)
+        for q, x in enumerate(want):
+            exp[x] = 7000 + q
+        if d1.get("cs") != str(prod(E)) or il(d1.get("w")) != exp:
+            return "deque", "mdarray over std::deque: container %s (size %s), expected %s" % (d1.get("w"), d1.get("cs"), exp)
+        sv = "-" if not T else ",".join("s%d" % (1 + x) for x in want)
+        if d2.get("cs") != str(prod(E)) or d2.get("same") != "1" or d2.get("v") != sv:
+            return "string", "mdarray<std::string>(mdspan): %s, expected %s" % (s2_[:120], sv)
+        return None
     if op == "swp":
         f = cd["f"]
         E2, S2, base2 = il(cd.get("E2")), il(cd.get("S2")), int(cd.get("base2", "0"))
@@ -716,6 +819,8 @@ def oracle(case, impl, model):
 def sig_of(case, aspect):
     op, inst, cd = parse_case(case)
     lay = cd.get("lay", cd.get("x", ""))
+    if op == "acc":
+        lay = cd.get("a", "") + ":" + cd.get("lay", "")
     if op == "swp":
         lay = cd.get("f", "")
     if op == "xcv":
@@ -787,7 +892,7 @@ def run(ctx):
     try:
         impl_san, _ = san_future.result()
         ctx.log("sanitizer variant built")
-        sub = [i for i, c in enumerate(cases) if c.split()[0] in ("mds", "mda", "mdasa", "mdafs", "span", "swp", "p1fs", "p2conv", "p3alloc")]
+        sub = [i for i, c in enumerate(cases) if c.split()[0] in ("mds", "mda", "mdasa", "mdafs", "span", "swp", "acc", "elt", "p1fs", "p2conv", "p3alloc")]
         if ctx.quick:
             sub = sub[::3]
         so = V.run_cases(ctx, [impl_san], [cases[i] for i in sub], tag="san", timeout=300 if ctx.quick else 1200,
@@ -824,7 +929,7 @@ def run(ctx):
         "impl_model_disagreements": ndis, "oracle_rejections": nviol, "sanitizer_cases": nsan,
         "exhaustive": False, "traces_validated_against_impl": len(cases),
     })
-    ctx.assumptions += ["default_accessor only; containers std::vector<long> and std::array<long,N>; element type long",
+    ctx.assumptions += ["accessors: default_accessor, ShiftAcc (cell 2i+shift over a raw pointer), CellAcc (index handle into a global array); containers std::vector/std::array/std::deque; element types long, std::string",
                         "index values generated inside the range of index_type (machine-integer side condition c14_fits)",
                         "constructors that do not compile are observed via separately compiled probe translation units"]
 
